@@ -1,6 +1,7 @@
 //! E3 enumcheck: bounded-exhaustive input enumeration against the real dust_dds code.
 use vutil::{Args, Report};
 
+mod c08;
 mod c14;
 mod c38;
 
@@ -10,6 +11,7 @@ fn main() {
     if let Some(path) = &args.replay {
         let v = vutil::read_replay(path);
         let ok = match args.id.as_str() {
+            "C08" => c08::replay(&v),
             "C14" => c14::replay(&v),
             "C38" => c38::replay(&v),
             _ => {
@@ -20,6 +22,7 @@ fn main() {
         std::process::exit(if ok { 0 } else { 1 });
     }
     match args.id.as_str() {
+        "C08" => c08::run(&args, &mut rep),
         "C14" => c14::run(&args, &mut rep),
         "C38" => c38::run(&args, &mut rep),
         other => {
